@@ -84,14 +84,18 @@ fn wide_line(rng: &mut Rng, s: &Schema, groups: usize) -> String {
 impl Monitor for C18 {
     fn id(&self) -> &'static str { "C18" }
     fn rule(&self) -> &'static str {
-        "each case (wide `*` projections over 12-16 columns, 4-8 aggregates per group over 20-60 groups, join buckets with many duplicates, HAVING over several keys, COUNT(DISTINCT), array_unique, 1-8 unrelated tables defined alongside, all output formats) is executed in 5 fresh processes and 3 times in-process; oracle = byte identity of everything printed. A 12-key canary HashMap is iterated in every process; the run is inconclusive unless >= 2 distinct canary orders were seen. Non-trivial = output has >= 5 records and >= 6 columns or groups; distinct by case hash"
+        "each case (wide `*` projections over 12-16 columns, 4-8 aggregates per group over 20-60 groups, join buckets with many duplicates, HAVING over several keys, COUNT(DISTINCT), array_unique, 1-8 unrelated tables and sometimes tables whose names differ only in letter case defined alongside, all output formats) is executed in 5 fresh processes and 3 times in-process; oracle = byte identity of everything printed. A 12-key canary HashMap is iterated in every process; the run is inconclusive unless >= 2 distinct canary orders were seen. Non-trivial = output has >= 5 records and >= 6 columns or groups; distinct by case hash"
     }
     fn assumptions(&self) -> Vec<String> { vec!["now() is never generated".into()] }
     fn sizes(&self, tier: Tier) -> Sizes { match tier { Tier::Quick => Sizes { cases: 480, min_nontrivial: 150 }, Tier::Thorough => Sizes { cases: 12_000, min_nontrivial: 3_000 } } }
 
     fn generate(&self, rng: &mut Rng, _tier: Tier) -> J {
         let ncols = 12 + rng.below(5);
-        let (spec, schema) = wide_table("t", ncols);
+        // sometimes tables whose names differ from the queried one only in letter case are defined alongside, and the
+        // statement may spell the name in yet another way (which resolves to nothing: an error, the same in every run)
+        let near_names = rng.chance(1, 4);
+        let main = if near_names { "tab" } else { "t" };
+        let (spec, schema) = wide_table(main, ncols);
         let groups = 20 + rng.below(40);
         let n = 30 + rng.below(120);
         let lines: Vec<String> = (0..n).map(|_| wide_line(rng, &schema, groups)).collect();
@@ -100,7 +104,8 @@ impl Monitor for C18 {
         for e in 0..extra { let (s, _) = wide_table(&format!("other{}", e), 3 + rng.below(4)); defs.push(s.text()); }
         let mut joined: Option<Vec<String>> = None;
         let texts = schema.of(&Ty::Text); let ints = schema.of(&Ty::Int); let reals = schema.of(&Ty::Real); let bools = schema.of(&Ty::Bool);
-        let mut sel = Sel { from: "t".into(), ..Default::default() };
+        if near_names { for name in ["Tab", "TAB", "tAb"] { if rng.chance(2, 3) { let (s, _) = wide_table(name, 3 + rng.below(4)); defs.push(s.text()); } } }
+        let mut sel = Sel { from: main.into(), ..Default::default() };
         match rng.below(5) {
             0 => { sel.projs.push((E::Star, None)); if rng.chance(1, 2) { sel.filter = Some(bin(">=", col(ints[0]), int(rng.range(0, 10)))); } }
             1 | 2 => {
@@ -132,7 +137,7 @@ impl Monitor for C18 {
                 let un = 20 + rng.below(60);
                 joined = Some((0..un).map(|_| wide_line(rng, &uschema, 6)).collect());
                 sel.projs.push((E::Star, None));
-                sel.join = Some(Join { outer: rng.chance(1, 3), table: "u".into(), file: "@JOINED@".into(), left: ("t".into(), "k0".into()), right: ("u".into(), "k0".into()) });
+                sel.join = Some(Join { outer: rng.chance(1, 3), table: "u".into(), file: "@JOINED@".into(), left: (main.into(), "k0".into()), right: ("u".into(), "k0".into()) });
             }
             _ => {
                 sel.distinct = true;
@@ -141,6 +146,7 @@ impl Monitor for C18 {
                 sel.projs.push((call("array_unique", vec![E::ArrayLit(vec![col(ints[0]), col(ints[1 % ints.len()]), int(3), int(3)])]), Some("u".into())));
             }
         }
+        if near_names && rng.chance(1, 2) { sel.from = "TaB".into(); if let Some(j) = sel.join.as_mut() { j.left.0 = "TaB".into(); } }
         rng.shuffle(&mut defs);
         json!({"tables": defs.join(" "), "stmt": sel.text(Paren::Full), "lines": lines, "joined": joined, "format": *rng.pick(&["text", "json", "csv"])})
     }
